@@ -129,9 +129,11 @@ impl WmoWriter {
         };
         mogp_header.write(writer)?;
 
-        // Write group header fields
-        writer.write_u32_le(group.header.name_offset)?;
-        writer.write_u32_le(group.header.flags.bits())?;
+        // Write the 68-byte group header (SMOGroup); fields WmoGroupHeader does not
+        // model are written as zero
+        writer.write_u32_le(group.header.name_offset)?; // +0x00 groupName
+        writer.write_u32_le(0)?; // +0x04 descriptiveGroupName
+        writer.write_u32_le(group.header.flags.bits())?; // +0x08 flags
 
         // Write bounding box
         writer.write_f32_le(group.header.bounding_box.min.x)?;
@@ -142,9 +144,12 @@ impl WmoWriter {
         writer.write_f32_le(group.header.bounding_box.max.y)?;
         writer.write_f32_le(group.header.bounding_box.max.z)?;
 
-        // Write flags and index
-        writer.write_u16_le(0)?; // Flags2, only used in later versions
-        writer.write_u16_le(group.header.group_index as u16)?;
+        // +0x24 portalStart, portalCount; +0x28 transBatchCount, intBatchCount,
+        // extBatchCount, padding; +0x30 fogIds[4]; +0x34 groupLiquid; +0x38 uniqueID;
+        // +0x3C flags2; +0x40 parent / next split group indices
+        for _ in 0..8 {
+            writer.write_u32_le(0)?;
+        }
 
         // Mark the start of subchunks
         let _subchunks_start = writer.stream_position()?;
